@@ -292,11 +292,17 @@ class _Discrepancy(Exception):
 # -- known findings -------------------------------------------------------
 def load_known(prop_id):
     path = os.path.join(VERIF, "known_findings.json")
-    if not os.path.exists(path):
-        return []
-    with open(path, "r", encoding="utf-8") as f:
-        data = json.load(f)
-    return [e for e in data.get("entries", []) if e.get("property") == prop_id]
+    entries = []
+    if os.path.exists(path):
+        with open(path, "r", encoding="utf-8") as f:
+            data = json.load(f)
+        entries = [e for e in data.get("entries", []) if e.get("property") == prop_id]
+    # development aid only (never set by registered commands): treat extra signatures as open findings
+    for extra in (os.environ.get("VERIF_KNOWN_EXTRA") or "").split(";"):
+        if extra.strip():
+            entries.append({"property": prop_id, "status": "open", "signature": extra.strip(),
+                            "what": "(VERIF_KNOWN_EXTRA, development only)"})
+    return entries
 
 
 def signature_matches(pattern, signature):
